@@ -1,5 +1,6 @@
 import AsyncVerif.Proofs.Values
 import AsyncVerif.Proofs.Values2
+import AsyncVerif.Proofs.Values3
 import AsyncVerif.Properties.C05
 /-!
 # C01 — iterator tools produce exactly what their stdlib namesakes produce
@@ -455,6 +456,112 @@ theorem C01_merge_sorted_stable (kf : Val → Val) (ls : List (List Val))
       List.filter_congr (fun x hx => heq k x (hkey_flat x hx))]
     exact this
 
+/-- On inputs that are each sorted in *descending* key order, the greedy merge with `reverse = True`
+    is a *stable merge*: a permutation of the concatenation of the inputs, sorted descending by key,
+    and for every key value the items with that key appear exactly in the order they have in the
+    concatenation (by input, then by position: ties go to the earlier input, as for
+    `reverse = False`) — the very same objects, since `Val` equality includes identity. -/
+theorem C01_merge_sorted_stable_reverse (kf : Val → Val) (ls : List (List Val))
+    (hk : ∀ l ∈ ls, ∀ x ∈ l, (kf x).key?.isSome = true)
+    (hsorted : ∀ l ∈ ls, l.Pairwise (fun a b => Std.keyLe (kf b) (kf a) = true)) :
+    (ListSpec.merge kf true ls).Perm ls.flatten
+    ∧ (ListSpec.merge kf true ls).Pairwise (fun a b => Std.keyLe (kf b) (kf a) = true)
+    ∧ ∀ k : Int, (ListSpec.merge kf true ls).filter (fun x => (kf x).key? == some k)
+        = ls.flatten.filter (fun x => (kf x).key? == some k) := by
+  have hle : ∀ a b, (kf a).key?.isSome = true → (kf b).key?.isSome = true →
+      (Std.keyLe (kf b) (kf a) = true ↔ rk true (kf a) ≤ rk true (kf b)) := by
+    intro a b ha hb
+    cases hka : (kf a).key? with
+    | none => rw [hka] at ha; simp at ha
+    | some x =>
+      cases hkb : (kf b).key? with
+      | none => rw [hkb] at hb; simp at hb
+      | some y => simp [Std.keyLe, rk, hka, hkb]
+  have heq : ∀ (k : Int) a, (kf a).key?.isSome = true →
+      ((kf a).key? == some k) = (rk true (kf a) == -k) := by
+    intro k a ha
+    cases hka : (kf a).key? with
+    | none => rw [hka] at ha; simp at ha
+    | some x =>
+      have h : (x == k) = (-x == -k) := by
+        rw [Bool.eq_iff_iff]; simp only [beq_iff_eq]; omega
+      simpa [rk, hka] using h
+  have hs' : ∀ l ∈ ls, l.Pairwise (fun a b => rk true (kf a) ≤ rk true (kf b)) := by
+    intro l hl
+    exact (hsorted l hl).imp_of_mem (fun ha hb h => (hle _ _ (hk l hl _ ha) (hk l hl _ hb)).mp h)
+  have hperm := mergeN_permR kf true _ ls hk (Nat.le_refl _)
+  have hkey_flat : ∀ x ∈ ls.flatten, (kf x).key?.isSome = true := by
+    intro x hx
+    obtain ⟨l, hl, hxl⟩ := List.mem_flatten.mp hx
+    exact hk l hl x hxl
+  have hkey_out : ∀ x ∈ ListSpec.merge kf true ls, (kf x).key?.isSome = true :=
+    fun x hx => hkey_flat x (hperm.mem_iff.mp hx)
+  refine ⟨hperm, ?_, ?_⟩
+  · exact (mergeN_sortedR kf true _ ls hk hs' (Nat.le_refl _)).imp_of_mem
+      (fun ha hb h => (hle _ _ (hkey_out _ ha) (hkey_out _ hb)).mpr h)
+  · intro k
+    have := mergeN_stableR kf true (-k) _ ls hk hs' (Nat.le_refl _)
+    rw [List.filter_congr (fun x hx => heq k x (hkey_out x hx)),
+      List.filter_congr (fun x hx => heq k x (hkey_flat x hx))]
+    exact this
+
+/-- `itertools.compress(data, selectors)` (CPython's `compress_next`: pull `data`, then `selectors`,
+    stop at the first of the two that has ended) for two distinct sources delivering `data` and `sels`
+    (lengths may differ): yields the items of `data` whose positionally paired selector is truthy, up
+    to the shorter input, and ends normally; fuel beyond the shorter length is enough. -/
+theorem C01_compress_value (d sel : Nat) (hne : d ≠ sel) (data sels : List Val) (fuel : Nat) (w : World)
+    (hc : Exhausting w) (hd : FeedsL w d data) (hs : FeedsL w sel sels)
+    (hf : min data.length sels.length < fuel) :
+    Produces (Std.compressLoop d sel fuel) w (.ok ()) (ListSpec.compress data sels) :=
+  produces_of (compressLoop_spec d sel hne data sels fuel w (env_of hc) hd.has hs.has hf)
+
+/-- asyncstdlib's `compress` (two scopes around a `zip` of both iterators; twin `C05_compress`) yields
+    the items of `data` whose positionally paired selector is truthy, up to the shorter input. -/
+theorem C01_compress (d sel : Nat) (hne : d ≠ sel) (data sels : List Val) (fuel : Nat) (w : World)
+    (hc : Exhausting w) (hd : FeedsL w d data) (hs : FeedsL w sel sels)
+    (hf : min data.length sels.length < fuel) :
+    Produces (Impl.compress d sel fuel) w (.ok ()) (ListSpec.compress data sels) :=
+  (C05_compress d sel fuel).produces (C01_compress_value d sel hne data sels fuel w hc hd hs hf)
+
+/-- the specification of `compress` is the comprehension of the documentation,
+    `(x for x, k in zip(data, selectors) if k)` -/
+theorem C01_compress_spec_zip (data sels : List Val) :
+    ListSpec.compress data sels = ((data.zip sels).filter (fun p => p.2.truthy)).map (fun p => p.1) := by
+  unfold ListSpec.compress
+  induction data.zip sels with
+  | nil => rfl
+  | cons p ps ih => cases hp : p.2.truthy <;> simp [hp, ih]
+
+/-- `iter(callable, sentinel)` (CPython's `calliter_iternext`), the callable's successive results —
+    from its current invocation number on, called without arguments — being the elements of `rs`
+    (`ScriptedFn`), some element of which is `==` to the sentinel: yields exactly the results before
+    the first one equal to the sentinel (the very same values) and ends normally; fuel beyond the number
+    of yielded results is enough.  (`C01_iter_sentinel_spec_index`: these are `rs.take i` for `i` the
+    index of the first result equal to the sentinel.) -/
+theorem C01_iter_sentinel_value (f : Nat) (sentinel : Val) (rs : List Val) (fuel : Nat) (w : World)
+    (hc : Exhausting w) (hr : ScriptedFn w f rs) (hex : ∃ v ∈ rs, v.pyEq sentinel = true)
+    (hf : (ListSpec.iterSentinel sentinel rs).length < fuel) :
+    Produces (Std.iterSentinel f sentinel fuel) w (.ok ()) (ListSpec.iterSentinel sentinel rs) :=
+  produces_of (iterSentinel_spec f sentinel rs fuel w (env_of hc) hr hex hf)
+
+/-- asyncstdlib's `iter(callable, sentinel)` yields the callable's results before the first one equal to
+    the sentinel and ends normally. -/
+theorem C01_iter_sentinel (f : Nat) (sentinel : Val) (rs : List Val) (fuel : Nat) (w : World)
+    (hc : Exhausting w) (hr : ScriptedFn w f rs) (hex : ∃ v ∈ rs, v.pyEq sentinel = true)
+    (hf : (ListSpec.iterSentinel sentinel rs).length < fuel) :
+    Produces (Impl.iterSentinel f sentinel fuel) w (.ok ()) (ListSpec.iterSentinel sentinel rs) :=
+  (C05_iter_sentinel f sentinel fuel).produces (C01_iter_sentinel_value f sentinel rs fuel w hc hr hex hf)
+
+/-- the specification of `iter(callable, sentinel)` read by index: if result `i` is the first one `==`
+    to the sentinel, what is yielded is `rs.take i`, i.e. `i` values — so `fuel > i` is enough above -/
+theorem C01_iter_sentinel_spec_index (sentinel : Val) (rs : List Val) (i : Nat) (hi : i < rs.length)
+    (hat : rs[i].pyEq sentinel = true) (hbefore : ∀ j (hj : j < i), rs[j].pyEq sentinel = false) :
+    ListSpec.iterSentinel sentinel rs = rs.take i
+    ∧ (ListSpec.iterSentinel sentinel rs).length = i := by
+  have h := iterSentinel_take sentinel rs i hi hat hbefore
+  refine ⟨h, ?_⟩
+  rw [h, List.length_take]; omega
+
 /-! ## The hypotheses are satisfiable, and the theorems say what they should, on concrete worlds
 
 Items with ties: `a1` and `a2` are different objects with the same key. -/
@@ -532,6 +639,52 @@ example : (Impl.zipStrict [0, 1] 10 exWorld).1 = .error .valueError := by rfl
 example : yields (Impl.cycle 1 20 { exWorld with cons := .run 4 .close }).2.vis = [b0, a2, b0, a2, b0] := by rfl
 example : Produces (Impl.cycle 1 20) { exWorld with cons := .run 4 .close } (.error .genExit) [b0, a2, b0, a2, b0] :=
   C01_cycle 1 [b0, a2] 4 20 _ ⟨rfl, rfl⟩ rfl (by decide)
+
+/-- `merge(reverse=True)` on descending inputs: the hypotheses of `C01_merge_sorted_stable_reverse` hold
+    for `[[c7, a1, b0], [a2], [b0]]`, and the tie `a1` (input 0) / `a2` (input 1) keeps its order -/
+example : ∀ l ∈ [[c7, a1, b0], [a2], [b0]], ∀ x ∈ l, (id x : Val).key?.isSome = true := by decide
+example : ∀ l ∈ [[c7, a1, b0], [a2], [b0]], l.Pairwise (fun a b => Std.keyLe (id b) (id a) = true) := by decide
+example : (ListSpec.merge id true [[c7, a1, b0], [a2], [b0]]).filter (fun x => (id x : Val).key? == some 5)
+    = [a1, a2] :=
+  ((C01_merge_sorted_stable_reverse id [[c7, a1, b0], [a2], [b0]] (by decide) (by decide)).2.2 5).trans (by rfl)
+
+/-- `compress`: source 0 (`a1, b0, a2, c7`) as data, source 1 (`b0, a2`) as selectors: `a1` is dropped
+    (its selector `b0` is falsy), `b0` is kept (its selector `a2` is truthy), then the selectors end -/
+example : ListSpec.compress [a1, b0, a2, c7] [b0, a2] = [b0] := by rfl
+example : ListSpec.compress [a1, b0, a2] [a2, b0, c7, a1] = [a1, a2] := by rfl
+example : yields (Impl.compress 0 1 10 exWorld).2.vis = [b0] := by rfl
+example : Produces (Impl.compress 0 1 3) exWorld (.ok ()) [b0] :=
+  C01_compress 0 1 (by decide) [a1, b0, a2, c7] [b0, a2] 3 exWorld rfl ⟨rfl, rfl⟩ ⟨rfl, rfl⟩ (by decide)
+
+/-- callable 0 has already been invoked twice; its invocation `n` returns element `n` of
+    `c7, c7, a1, c7, b0, a2` (and `None` afterwards) -/
+private def exWorld2 : World :=
+  { exWorld with
+    fns := fun _ n _ => .ok ([c7, c7, a1, c7, b0, a2].getD n .none)
+    calls := fun f => if f = 0 then 2 else 0 }
+
+example : ScriptedFn exWorld2 0 [a1, c7, b0, a2] := by
+  intro n hn
+  match n, hn with
+  | 0, _ => rfl
+  | 1, _ => rfl
+  | 2, _ => rfl
+  | 3, _ => rfl
+  | n + 4, h => exact absurd h (by simp)
+
+/-- `iter(callable, 0)`: `b0` (key 0) is the first result `== 0`, at index 2: `a1, c7` are yielded -/
+example : ListSpec.iterSentinel (.int 0) [a1, c7, b0, a2] = [a1, c7] := by rfl
+example : yields (Impl.iterSentinel 0 (.int 0) 10 exWorld2).2.vis = [a1, c7] := by rfl
+example : Produces (Impl.iterSentinel 0 (.int 0) 3) exWorld2 (.ok ()) [a1, c7] :=
+  C01_iter_sentinel 0 (.int 0) [a1, c7, b0, a2] 3 exWorld2 rfl
+    (by intro n hn
+        match n, hn with
+        | 0, _ => rfl
+        | 1, _ => rfl
+        | 2, _ => rfl
+        | 3, _ => rfl
+        | n + 4, h => exact absurd h (by simp))
+    ⟨b0, by simp, by rfl⟩ (by decide)
 
 end Examples
 
